@@ -220,7 +220,7 @@ func worker(args []string) {
 		addStats(out.Stats, res.Stats)
 		out.Policies[run.Sched.Policy]++
 		if *hashes {
-			out.Hashes = append(out.Hashes, fmt.Sprintf("%d:%016x:%016x:%016x:%d", idx, ph, res.Stats.TraceHash, res.Stats.SchedHash, res.Stats.Steps))
+			out.Hashes = append(out.Hashes, fmt.Sprintf("%d:%016x:%016x:%016x:%016x:%d", idx, ph, res.Stats.TraceHash, res.Stats.SchedHash, res.Stats.ObsHash, res.Stats.Steps))
 		}
 		if res.Violation != nil {
 			out.Violation = res.Violation
@@ -248,7 +248,7 @@ func worker(args []string) {
 			run2 := generate(*prop, *seed, idx, *build, sites)
 			res2 := work.Exec(run2, ar, g, sites)
 			out.DetChecks++
-			if res2.Incon != nil || res2.Violation != nil || res2.Stats.TraceHash != res.Stats.TraceHash || res2.Stats.Steps != res.Stats.Steps || progHash(run2) != ph || res2.Stats.Observes != res.Stats.Observes {
+			if res2.Incon != nil || res2.Violation != nil || res2.Stats.TraceHash != res.Stats.TraceHash || res2.Stats.ObsHash != res.Stats.ObsHash || res2.Stats.Steps != res.Stats.Steps || progHash(run2) != ph || res2.Stats.Observes != res.Stats.Observes {
 				out.DetFail = fmt.Sprintf("run %d did not repeat: steps %d vs %d, trace %x vs %x", idx, res.Stats.Steps, res2.Stats.Steps, res.Stats.TraceHash, res2.Stats.TraceHash)
 				break
 			}
